@@ -35,6 +35,9 @@ func runFault(prop string) *ShardResult {
 			}
 		}
 		ops = append(ops, core.Op{K: "S", Key: "k1", Val: []byte("v")})
+		if _, ok := m.Stable["k1"]; ok {
+			ops = append(ops, core.Op{K: "S", Key: "k1", Nil: true}) // clearing a key that holds a value
+		}
 		if m.Last > 0 {
 			// a clean Close followed by an Open in which a step may fail (listing, metadata load, reads of recovery)
 			ops = append(ops, core.Op{K: "R"})
@@ -106,6 +109,7 @@ func runFault(prop string) *ShardResult {
 							if r.Failed > 0 {
 								res.Counts["distinct_nontrivial"]++
 							}
+							res.Counts["crash_images_after_faulted_runs"] += int64(r.CrashImages)
 							outcomes[fmt.Sprintf("%s|%s", r.HitOp, r.Outcome)] = true
 							for _, v := range r.Viol {
 								if prop == "C10" || v.Prop == prop {
